@@ -96,6 +96,25 @@ def subsets(tier, seed):
     return core + rng.sample([s for s in alls if s not in core], 30)
 
 
+# Where the configured rules live: lian reads every `entry.yaml` and `<prefix>-entry.yaml` below the settings directory and the
+# configuration is the union of their rules (the prefix is a file-naming convention, a rule's language is its own `lang` field).
+# Placement "" is the single entry.yaml; the others spread the same rule set over several files.
+def place(rules, how):
+    a, b = rules[::2], rules[1::2]
+    if how == "":
+        return {"entry.yaml": yaml_of(rules)}
+    if how == "lang-file":          # a file named after an analysed language next to entry.yaml
+        return {"entry.yaml": yaml_of(a), "python-entry.yaml": yaml_of(b)}
+    if how == "other-files":        # a project-named file and one named after a language that is not analysed
+        return {"entry.yaml": "[]\n", "webapp-entry.yaml": yaml_of(a), "java-entry.yaml": yaml_of(b)}
+    if how == "subdir":             # rule files in a sub-directory of the settings directory
+        return {"entry.yaml": yaml_of(b), "team/extra-entry.yaml": yaml_of(a)}
+    raise ValueError(how)
+
+
+PLACED = [[1], [3], [13], [1, 2], [3, 6], [4, 5], [2, 7], [11, 12], [1, 13], [13, 14], [1, 11, 13], [15, 16], [17, 18]]
+
+
 def lang_of(fn):
     return "javascript" if fn.endswith(".js") else "python"
 
@@ -138,16 +157,17 @@ def run(tier, seed):
     root = C.scratch("c20")
     subs = subsets(tier, seed)
     jobs = []
-    for i, s in enumerate(subs):
+    placed = [(s, "") for s in subs] + [(s, how) for how in ("lang-file", "other-files", "subdir") for s in PLACED + [list(range(1, len(POOL) + 1))]]
+    for i, (s, how) in enumerate(placed):
         st = dict(SETTINGS)
-        st["entry.yaml"] = yaml_of([POOL[k - 1] for k in s])
+        st.update(place([POOL[k - 1] for k in s], how))
         jobs.append(dict(cmd="run", lang="python,javascript", files=FILES, dir=os.path.join(root, "r%04d" % i), settings=st, flags=["--nomock"],
-                         export=["gir", "modules", "entry_points", "taint"], timeout=900, _rules=s,
+                         export=["gir", "modules", "entry_points", "taint"], timeout=900, _rules=s, _how=how,
                          post_hook="c20_post"))
     res = C.lian_batch(jobs)
     runs, project = [], None
     for job, r in zip(jobs, res):
-        name = "rules=" + ",".join(map(str, job["_rules"]))
+        name = "rules=" + ",".join(map(str, job["_rules"])) + ("@" + job["_how"] if job["_how"] else "")
         if r["exit"] != "ok" or r.get("post") is None:
             v.violation("lian_failed:%s" % r["exit"], {"rules": job["_rules"], "exit": r["exit"], "traceback": (r.get("traceback") or r.get("post_error") or "")[-800:]})
             continue
@@ -194,7 +214,8 @@ def run(tier, seed):
     rc = v.finish()
     cov = {
         "states": r.distinct, "transitions": r.generated, "traces_validated_against_impl": len(runs),
-        "samples": runs[:3], "rule_pool": POOL, "rule_subsets_run": len(subs), "rule_subsets_in_model": sum(1 for k in range(0, (3 if tier == "quick" else 5) + 1) for _ in itertools.combinations(range(len(POOL)), k)),
+        "samples": runs[:3], "rule_pool": POOL, "rule_subsets_run": len(subs), "runs_with_rules_spread_over_several_files": len(placed) - len(subs),
+        "placements": ["entry.yaml only", "entry.yaml + python-entry.yaml", "webapp-entry.yaml + java-entry.yaml (entry.yaml empty)", "entry.yaml + team/extra-entry.yaml"], "rule_subsets_in_model": sum(1 for k in range(0, (3 if tier == "quick" else 5) + 1) for _ in itertools.combinations(range(len(POOL)), k)),
         "violating_runs": n_bad, "known_findings_hit": {k: len(x) for k, x in v.hits.items()}, "repo": C.repo_head(), "exhaustive": False,
         "rule": "model: every subset of the rule pool through the scan/start model vs Selected(); traces: one full lian run per rule subset on a "
                 "3-file two-language project with a local source->sink flow in every python method",
